@@ -62,13 +62,26 @@ def place(rng, ts):
     return x - x % 1000
 
 
+def rel_spec(delta_s, rng):
+    """-<delta> in the documented relative spelling: one unit or several"""
+    if delta_s == 0 or rng.random() < 0.3:
+        return "-%ds" % delta_s
+    d, r = divmod(delta_s, 86400)
+    h, r = divmod(r, 3600)
+    m, sec = divmod(r, 60)
+    out = "-" + "".join("%d%s" % (v, u) for (v, u) in ((d, "d"), (h, "h"), (m, "m"), (sec, "s")) if v)
+    return out
+
+
 def gen_case(rng):
     bsz = rng.choice((64, 100, 128, 256, 512, 4096, 65536))
     n = rng.choice((1, 1, 2, 3))
+    relative = rng.random() < 0.12      # bounds given relative to the (simulated) program start, under a --tz-offset
+    kw = {"notations": (1, 1, 2, 3)} if relative else {}      # zone-less stamps would be read in the --tz-offset zone
     srcs = merge.gen_sources(rng, n, bsz, max_msgs=rng.choice((4, 12, 40)),
                              containers=("plain", "plain", "plain", "gz", "bz2", "xz", "lz4"),
                              allow_degenerate=False, tie_heavy=rng.random() < 0.6, frac_choices=(3, 3, 6, 1),
-                             first_line_max=None)
+                             first_line_max=None, **kw)
     ts = sorted(set(m.instant for s in srcs for m in s.msgs))
     form = rng.choice(("both",) * 9 + ("only_a",) * 3 + ("only_b",) * 3 + ("a_eq_b",) * 3 + ("a_after_b",))
     a = place(rng, ts) if form != "only_b" else None
@@ -81,12 +94,31 @@ def gen_case(rng):
             a, b = b + 1_000_000, a
     elif a is not None and b is not None and a > b:
         a, b = b, a
+    now = None
+    if relative and form != "a_after_b":
+        NS = 1_000_000_000
+        if a is not None:
+            a -= a % NS
+        if b is not None:
+            b -= b % NS
+        latest = max([x for x in (a, b) if x is not None] + [ts[-1]]) // NS
+        now_s = latest + rng.choice((0, 1, 59, 3600, 86400 * 3 + 7))
+        tzo_min = rng.choice((0, 180, -120, 330, -690))
+        tzo = "%s%02d:%02d" % ("+" if tzo_min >= 0 else "-", abs(tzo_min) // 60, abs(tzo_min) % 60)
+        opts = ["--color", "never", "--blocksz", str(bsz), "--tz-offset=" + tzo]
+        if a is not None:
+            opts += ["-a=" + rel_spec(now_s - a // NS, rng)]
+        if b is not None:
+            opts += ["-b=" + rel_spec(now_s - b // NS, rng)]
+        now = (now_s, rng.randrange(NS))
+        form += "(relative_to_now)"
+        return bsz, srcs, opts, a, b, form, now
     opts = ["--color", "never", "--blocksz", str(bsz), "--tz-offset", "+00:00"]
     if a is not None:
         opts += ["-a", fmt_bound(rng, a)]
     if b is not None:
         opts += ["-b", fmt_bound(rng, b)]
-    return bsz, srcs, opts, a, b, form
+    return bsz, srcs, opts, a, b, form, now
 
 
 def filtered(srcs, a, b):
@@ -135,7 +167,7 @@ def run_case(seed, i, tier):
             cr.sample["via"] = name
         return cr
     rng = core.rng_for(seed, PROP, i)
-    bsz, srcs, opts, a, b, form = gen_case(rng)
+    bsz, srcs, opts, a, b, form, now = gen_case(rng)
     expected = model_stdout(srcs, a, b)
     cr = CaseResult()
     nw = mergecheck.n_workers(srcs)
@@ -144,6 +176,8 @@ def run_case(seed, i, tier):
         prng = core.rng_for(seed, PROP, i, "plan", k)
         plan = core.random_plan(prng, nw, budget=mergecheck.step_budget(srcs, bsz) * 3)
         plan.hashseed = rng.getrandbits(32)
+        if now is not None:
+            plan.now = now
         _, res = mergecheck.run_once(srcs, opts, plan)
         tr = res.trace
         cr.runs += 1
@@ -163,7 +197,7 @@ def run_case(seed, i, tier):
         cr.arrival_hashes.append(tr.arrival_hash())
         cr.nontrivial_keys.append(core.derive(0, merge.scenario_for(srcs, opts).digest()))
         vs = mergecheck.evaluate(res, expected, check_protocol=False)
-        if not vs and sel == 0 and res.rc != 0 and form != "a_after_b":
+        if not vs and sel == 0 and res.rc != 0 and not form.startswith("a_after_b"):
             vs.append(("empty_selection_is_an_error", "exit status %s with an empty selection; stderr %r" % (res.rc, res.stderr[-200:])))
         for (cls, detail) in vs:
             rp = {"kind": "c03", "sources": mergecheck.sources_to_json(srcs), "opts": opts, "a": a, "b": b,
